@@ -709,6 +709,13 @@ class Array(DaskMethodsMixin):
         from dask_array.slicing import SetItem
 
         value_expr = value.expr if isinstance(value, Array) else value
+        # Dask-array indices are stored in the expression.  Array collections
+        # are mutable (``idx[0] = 5`` swaps ``idx``'s expression in place), so
+        # store a snapshot of each index's current expression rather than the
+        # caller's object: a later in-place change to the index collection must
+        # not change what this assignment means.
+        if isinstance(key, tuple):
+            key = tuple(new_collection(k.expr) if isinstance(k, Array) else k for k in key)
         y = new_collection(SetItem(self.expr, key, value_expr))
         self._replace_expr(y.expr)
 
